@@ -255,7 +255,7 @@ func judgeOptim(entry string, c ProbCase, o optObs, models tt.Set) []core.Failur
 		}
 	}
 	switch c.Mode {
-	case "optimal-nil", "optimal-chan":
+	case "optimal-nil", "optimal-chan", "solve":
 		checkResult("", o.res)
 		if len(fs) == 0 && o.res.Status == solver.Sat && o.res.Weight != best {
 			add("not-optimal", fmt.Sprintf("returned cost %d (model %v), the minimum is %d", o.res.Weight, o.res.Model, best))
